@@ -134,6 +134,17 @@ theorem C04_dest_ack_ends (env : Dest.Env) (d : Dest.DestSt) (h : Hdr) (o c ts :
       .ok () { d with state := .idle, step := .IDLE, p := {} } := by
   msimp [Dest.handleWaitingForFinishedAck, Dest.resetInternal]
 
+/-- **a re-received EOF is not progress** (half-silent link: the sender did not get the ACK of its EOF
+and re-sends it while the receiver waits for the ACK of its Finished PDU): the EOF is acknowledged
+again — exactly one ACK (EOF) — and nothing else happens: no Finished PDU outside the timer, the retry
+counter, the timer and the step are untouched, so the limit is still reached at the N-th expiry. -/
+theorem C04_dest_eof_again_not_progress (env : Dest.Env) (d : Dest.DestSt) (h : Hdr) (cond size : Nat)
+    (cks : List UInt8) (floc : Option EntityId) (r : Dest.DM Unit) :
+    Dest.handleWaitingForFinishedAck env (some (.eof h cond cks size floc)) r d =
+      .ok () { d with queue := d.queue ++ [Dest.mkAck d.p.conf dtEof d.p.fin.cond tsActive],
+                      numReady := d.numReady + 1 } := by
+  msimp [Dest.handleWaitingForFinishedAck, Dest.prepareEofAckPacket, Dest.getP, Dest.addPacket]
+
 /-! ### receiver: NAK sequences awaiting missing data -/
 
 theorem C04_nak_no_early_expiry (env : Dest.Env) (d : Dest.DestSt) (t : Timer) (rc : RemoteCfg) (fse : Nat)
